@@ -23,6 +23,12 @@ fn decode_value(entry_text: &str, name: &str) -> String {
     if lines.is_empty() {
         lines.push(String::new());
     }
+    // "Field:\n value": nothing after the colon and the value on the following lines. The readers
+    // report the value without that empty first line (a decision of the implementation that every
+    // typed getter relies on); the reference follows it.
+    if lines.len() > 1 && lines[0].is_empty() {
+        lines.remove(0);
+    }
     lines.join("\n")
 }
 
